@@ -149,6 +149,35 @@ def host_runner_enabled():
     return True
 
 
+def pending_stream_product():
+    """requests pending through the per-request stream API (`new_request_stream` + `send_json`) when the context is
+    left: 1 or 3 registered streams, their receive ends unread / being read by a task / closed, every exit path,
+    children that never answer them or die"""
+    out = []
+    for n in (1, 3):
+        for ends in ("unread", "read", "closed"):
+            for p in H.PATHS:
+                out.append(_case("well", p, "inflight", api="StdioClient", legacy=True, legacy_n=n, legacy_ends=ends))
+            out.append(_case("exit_at", "cancel", "inflight", api="StdioClient", legacy=True, legacy_n=n, legacy_ends=ends, k=1))
+            out.append(_case("ignore_term", "timeout", "inflight", api="StdioClient", legacy=True, legacy_n=n, legacy_ends=ends))
+    return out
+
+
+def reader_killer_product():
+    """output that ends or strains the stdout reader FIRST (a line that is not UTF-8, binary garbage, one 1.5 MB line, a
+    stream cut inside a multi-byte character), then the child behaves as its kind says: floods, stops reading, ignores
+    SIGTERM, or is well-behaved"""
+    out = []
+    for pre in ("bad_utf8", "binary", "long_line", "truncated_utf8"):
+        for b, v in (("flood", {}), ("flood", {"junk": True}), ("never_reads", {"backlog": BACKLOG}), ("ignore_term", {}), ("well", {}),
+                     ("close_stdout", {"linger": "sleep"})):
+            for p in H.PATHS:
+                out.append(_case(b, p, "before", preamble=pre, **v))
+        out.append(_case("flood", "normal", "before", preamble=pre, api="StdioTransport"))
+        out.append(_case("flood", "cancel", "before", preamble=pre, api="StdioClient", sessions=2))
+    return out
+
+
 def version_product():
     """the protocol version the handshake settled on, on the CLIENT object (with / without JSON-RPC batching), crossed
     with children that send batch arrays and do not read what the client writes back"""
@@ -332,6 +361,17 @@ DIRECTED = [
     _case("flood", "cancel", "before", self_exit=3),
     _case("well", "cancel", "after", on_term=0),
     _case("exit_at", "normal", "after", k=2, code=0),
+    # requests pending through the per-request stream API when the context is left
+    _case("well", "cancel", "inflight", api="StdioClient", legacy=True, legacy_n=3),
+    _case("well", "timeout", "inflight", api="StdioClient", legacy=True, legacy_n=1, legacy_ends="read"),
+    _case("well", "normal", "inflight", api="StdioClient", legacy=True, legacy_n=3, legacy_ends="closed"),
+    _case("exit_at", "cancel", "inflight", api="StdioClient", legacy=True, legacy_n=1, legacy_ends="closed", k=1),
+    # the stdout reader is ended first (not UTF-8 / binary / one huge line), then the child floods or lingers
+    _case("flood", "normal", "before", preamble="bad_utf8"),
+    _case("flood", "cancel", "before", preamble="binary"),
+    _case("flood", "exception", "before", preamble="long_line", junk=True),
+    _case("ignore_term", "timeout", "before", preamble="bad_utf8"),
+    _case("never_reads", "normal", "before", preamble="truncated_utf8", backlog=BACKLOG),
     # the negotiated protocol version on the client, a child that sends batches and does not read the replies
     _case("flood", "normal", "before", api="StdioClient", version="2025-06-18", batch=True),
     _case("flood", "cancel", "before", api="StdioTransport", version="2025-06-18", batch=True),
@@ -400,18 +440,18 @@ class Scenarios(Suite):
     def cases(self, ctx, budget):
         rng = ctx.sub_rng("c16", budget)
         if budget == "quick":
-            full = product(H.APIS) + backlog_product() + reuse_product() + hardening_product() + version_product() + body_exception_product() + status_product() + stderr_product() + concurrent_product()
+            full = product(H.APIS) + backlog_product() + reuse_product() + hardening_product() + pending_stream_product() + reader_killer_product() + version_product() + body_exception_product() + status_product() + stderr_product() + concurrent_product()
             out = [dict(c) for c in DIRECTED] + [dict(c) for c in rng.sample(full, 6)]
             out += entry_scan(8, 160)
             out += [BAD[0], BAD[4], BAD[8]] + [b for b in BAD if b.get("attempts") == 2 and b["bad"] == "missing"] \
                 + [b for b in BAD if b.get("attempts") == 3 and b["bad"] == "not-executable" and b["api"] != "stdio_client"]
         elif budget == "thorough":
             out = (product(H.APIS) + backlog_product(H.APIS) + reuse_product() + reuse_product(("StdioClient",), (3,))
-                   + hardening_product() + version_product() + body_exception_product() + status_product() + stderr_product() + concurrent_product()
+                   + hardening_product() + pending_stream_product() + reader_killer_product() + version_product() + body_exception_product() + status_product() + stderr_product() + concurrent_product()
                    + entry_scan(2, 200) + entry_scan(8, 160, H.APIS[1:]) + BAD)
         else:  # search
             out = (product(["stdio_client"], nreq=1, junk=False) + backlog_product() + reuse_product(("StdioClient", "StdioTransport"))
-                   + hardening_product() + version_product() + body_exception_product() + status_product() + stderr_product() + concurrent_product()
+                   + hardening_product() + pending_stream_product() + reader_killer_product() + version_product() + body_exception_product() + status_product() + stderr_product() + concurrent_product()
                    + entry_scan(4, 160) + BAD[:4])
         if host_runner_enabled():
             hp = host_runner_product()
@@ -620,7 +660,7 @@ class Scenarios(Suite):
             return f"{b}/{case['path']}/entry-{'cut' if not o['entered'] else 'body'}/{case.get('api')}"
         if case["behaviour"] == "close_stdout":
             b += "-" + case.get("linger", "eof") + ("@%d" % case["close_after"] if case.get("close_after") else "")
-        flags = "".join("+" + k for k in ("version", "batch", "logging", "stderr_flood", "chatty", "falsy_result", "term_delay", "env", "stderr", "hostile_args", "nested", "legacy",
+        flags = "".join("+" + k for k in ("preamble", "legacy_n", "legacy_ends", "version", "batch", "logging", "stderr_flood", "chatty", "falsy_result", "term_delay", "env", "stderr", "hostile_args", "nested", "legacy",
                                           "exc_text", "req_id", "empty_x", "backlog_bytes") if case.get(k) is not None)
         if case.get("backlog", 0) > 95:
             flags += "+queue-full"
@@ -660,12 +700,14 @@ class Scenarios(Suite):
                                order=[ren[i] for i in case.get("order", []) if i in ren],
                                send_order=[ren[i] for i in case.get("send_order", []) if i in ren])
             return
-        for k in ("version", "batch", "logging", "exc_class", "on_term", "self_exit", "code", "stderr_flood"):
+        for k in ("preamble", "legacy_ends", "version", "batch", "logging", "exc_class", "on_term", "self_exit", "code", "stderr_flood"):
             if k in case:
                 yield {a: b for a, b in case.items() if a != k}
         for k in ("chatty", "falsy_result", "env", "stderr", "hostile_args", "legacy", "exc_text", "req_id", "empty_x", "backlog_bytes"):
             if k in case:
                 yield {a: b for a, b in case.items() if a != k}
+        if case.get("legacy_n", 1) > 1:
+            yield dict(case, legacy_n=1)
         if case.get("nested", 1) > 2:
             yield dict(case, nested=2)
         if case.get("sessions", 1) > 2:
